@@ -51,6 +51,15 @@ def ptr_of(ex, p, v):
     return obj, off
 
 
+def _lenrepr(ex, p, a, unknown):
+    """a length argument as text: a linear form, or - when it went through memory as a constant (a concrete length stored to *mlen and
+    loaded back) - that constant"""
+    if not is_word(a):
+        return repr(ex.subst(p, a))
+    k = gf2.is_const(a)
+    return repr(Lf.c(k)) if k is not None else unknown
+
+
 class Handler:
     """uninterpreted-call semantics for the mode level"""
 
@@ -92,7 +101,7 @@ class Handler:
             dc = d.const() if not is_word(d) else gf2.is_const(d)
             rc = r.const() if not is_word(r) else gf2.is_const(r)
             p.events.append(("ABSORB", n, dc & 0xFF if dc is not None else None, rc, tuple(tuple(w) for w in sin), repr(ex.subst(p, args[1])) if not is_word(args[1]) else "?",
-                             repr(ex.subst(p, args[2])) if not is_word(args[2]) else "?", I.id, name))
+                             _lenrepr(ex, p, args[2], "?"), I.id, name))
             set_state_words(p, obj, [gf2.sym_word(("ABSORB", n, i), 32) for i in range(4)])
             return None
         if name.startswith("tinyjambu_generate_tag_"):
@@ -109,7 +118,7 @@ class Handler:
             t1 = ex.load(p, args[2], 8, None)
             p.events = [e for e in p.events if not (e[0] == "in" and e[-1] is None)]
             sz = args[4].const() if not is_word(args[4]) else None
-            p.events.append(("CHECK", n, repr(ex.subst(p, args[0])), repr(ex.subst(p, args[1])) if not is_word(args[1]) else "data", tuple(t1),
+            p.events.append(("CHECK", n, repr(ex.subst(p, args[0])), _lenrepr(ex, p, args[1], "data"), tuple(t1),
                              repr(ex.subst(p, args[3])), sz, I.id))
             return Lf.s(("verdict", n))
         if name in ("memcpy-var", "memset-var"):
